@@ -719,6 +719,8 @@ PRODUCERS = {
     "assemble_prolongation": ("matrix", "vector"),
     "assemble_truncation": ("matrix", "vector"),
     "prolongate_vector": ("vector_f", "vector_w"),
+    "assemble_intermesh_transfer": ("matrix", "vector"),
+    "transfer_intermesh_vector": ("vector_target", "vector_weight"),
 }
 
 
@@ -870,6 +872,287 @@ def check_weights(ck, fn, fkey, rule="E7.weights-inverted-once"):
         ck.ob(rule, "%s/%s" % (fkey, W), not uniq, "; ".join("line %s: %s" % pr for pr in uniq) or
               "weights %s: assembled -> %sinverted once (numerator 1) -> scale %s, on every path" % (W, "" if serial_route else "synchronised -> ", M),
               fn.file, uniq[0][0] if uniq else c0.get("l"), sample={"weights": repr(W), "scaled": repr(M)})
+        count += 1
+    return count
+
+
+# =====================================================================================================
+# clause 3a': what is handed to a scatter-add assembler is zero on every path
+# =====================================================================================================
+
+ZERO_BUILDERS = re.compile(r"^FEAT::Assembly::SymbolicAssembler::assemble_matrix_")     # matrix = MatrixType(graph): values are zero-initialised
+
+
+def check_zeroed(ck, fn, fkey, rule="E7.zeroed-before-assembly"):
+    """joint typestate zero / dirty / unknown of every object handed to GridTransfer::assemble_prolongation / assemble_truncation / prolongate_vector
+    (they add into their [in,out] matrix / vectors) and of the objects those are derived from by transposition / cloning"""
+    cfg = fn.cfg
+    if cfg is None:
+        return 0
+    rs = Resolver(fn)
+    par = dfl.parents(fn)
+    prods = []
+    for c in stmt_calls(fn):
+        if c.get("k") == "Call" and strip_targs(c.get("callee", "")).startswith("FEAT::Assembly::GridTransfer::") and callee_name(c) in PRODUCERS and len(c.get("a", [])) >= 2:
+            prods.append((c, [rs.path(c["a"][0]), rs.path(c["a"][1])]))
+    if not prods:
+        return 0
+    events = function_events(fn)[1]
+    tracked = []
+    for c, ps in prods:
+        for p_ in ps:
+            if p_ not in tracked and not p_.opaque():
+                tracked.append(p_)
+    # sources of transpositions / clones into tracked objects are tracked as well
+    for evs in events.values():
+        for ev in evs:
+            if ev.kind == "store" and ev.path in tracked and ev.src[0] in ("transpose", "clone") and ev.src[1] is not None and ev.src[1] not in tracked and not ev.src[1].opaque():
+                tracked.append(ev.src[1])
+    touched = set()
+    prod_nodes = {id(c) for c, ps in prods}
+    prod_where = [cfg.block_of(c["i"]) for c, ps in prods if cfg.block_of(c["i"]) is not None]
+
+    def precedes_a_producer(node):
+        w = cfg.block_of(node.get("i")) if "i" in node else None
+        if w is None:
+            return True
+        reach = cfg.reachable(w[0])
+        return any((pw[0] in reach and pw[0] != w[0]) or (pw[0] == w[0] and (w[1] < pw[1] or dfl._in_cycle(cfg, w[0]))) for pw in prod_where)
+    for evs in events.values():
+        for ev in evs:
+            if ev.kind in ("store", "mod") and ev.path is not None and id(ev.node) not in prod_nodes and precedes_a_producer(ev.node):
+                for t in tracked:
+                    if t.related(ev.path):
+                        touched.add(t)      # the function itself prepares the object before the assembly: it owns the zeroing
+    for d, v in rs.vars.items():
+        lp = Path((("local", d),))
+        if lp in tracked:
+            touched.add(lp)
+    prod_ids = {c["i"]: ps for c, ps in prods}
+    problems, doubts = [], []
+    idx = {t: i for i, t in enumerate(tracked)}
+
+    def fmt_value(n):
+        """'zero' | 'dirty' for X.format(v)"""
+        a = n.get("a", [])
+        if not a:
+            return "zero"
+        v = unwrap_num(rs, a[0])
+        if v is None:
+            return "unknown"
+        return "zero" if v == 0.0 else "dirty"
+
+    def step(bid, state):
+        st = list(state)
+        for e in cfg.blocks[bid]["el"]:
+            n = fn.by_id(e)
+            if n is None:
+                continue
+            if n.get("k") == "Decl":
+                for v in n.get("vars", []):
+                    lp = Path((("local", v["d"]),))
+                    if lp in idx and not v.get("ref"):
+                        ini = v.get("init")
+                        cr = classify_rhs(rs, ini) if ini is not None else ("opaque", None, None)
+                        if cr[0] in ("transpose", "clone") and cr[1] in idx and not (cr[0] == "clone" and cr[2] in ("Layout", "Allocate")):
+                            st[idx[lp]] = st[idx[cr[1]]]
+                        else:
+                            st[idx[lp]] = ("dirty", "declared at line %s with uninitialised / unknown values" % n.get("l"))
+                continue
+            if not is_call(n) and n.get("k") != "Assign":
+                continue
+            if is_call(n) and n["i"] in prod_ids:
+                for p_ in prod_ids[n["i"]]:
+                    if p_ not in idx or p_ not in touched:
+                        continue          # forwarded untouched: the obligation is the caller's ([in,out] contract)
+                    s_ = st[idx[p_]]
+                    if s_[0] == "dirty":
+                        problems.append((n.get("l"), "%s is handed to the scatter-add assembler %s although on some path it is not zero: %s" % (p_, callee_name(n), s_[1])))
+                    elif s_[0] == "unknown":
+                        doubts.append((n.get("l"), "%s handed to %s: %s" % (p_, callee_name(n), s_[1])))
+                    st[idx[p_]] = ("dirty", "holds the values assembled at line %s" % n.get("l"))
+                continue
+            # modelled value events
+            target = None
+            if n.get("k") == "MCall" and not n.get("cconst"):
+                target = rs.path(n.get("obj") or {"k": "This"})
+                nm = callee_name(n)
+                if target in idx and not dfl.Resolver and False:
+                    pass
+                if nm == "format" and any(t.startswith(target) for t in tracked):
+                    fv = fmt_value(n)
+                    for t in tracked:
+                        if t.startswith(target):          # formatting a container formats its parts
+                            st[idx[t]] = ("zero",) if fv == "zero" else ((fv, "formatted to %s at line %s" % (render(n["a"][0]) if n.get("a") else "0", n.get("l"))))
+                    continue
+                if target in idx:
+                    if nm == "transpose" and len(n.get("a", [])) == 1:
+                        sp = rs.path(n["a"][0])
+                        st[idx[target]] = st[idx[sp]] if sp in idx else ("unknown", "transposed from %s, whose values are not tracked" % sp)
+                        if st[idx[target]][0] == "dirty":
+                            st[idx[target]] = ("dirty", "it is the transpose (line %s) of %s, which is not zero there: %s" % (n.get("l"), sp, st[idx[sp]][1]))
+                        continue
+                    if nm == "clone" and len(n.get("a", [])) >= 1:
+                        sp = rs.path(n["a"][0])
+                        mode = clone_mode(n)
+                        st[idx[target]] = ("dirty", "layout clone at line %s (values not initialised)" % n.get("l")) if mode in ("Layout", "Allocate") else (
+                            st[idx[sp]] if sp in idx else ("unknown", "cloned from %s" % sp))
+                        continue
+            if (n.get("k") == "OpCall" and n.get("op") == "=" and len(n.get("a", [])) == 2) or (n.get("k") == "Assign" and n.get("op") == "="):
+                lhs = n["a"][0] if n.get("k") == "OpCall" else n["lhs"]
+                rhs = n["a"][1] if n.get("k") == "OpCall" else n["rhs"]
+                lp = rs.path(lhs)
+                if lp in idx:
+                    cr = classify_rhs(rs, rhs)
+                    if cr[0] in ("transpose", "clone") and cr[1] in idx and not (cr[0] == "clone" and cr[2] in ("Layout", "Allocate")):
+                        s_ = st[idx[cr[1]]]
+                        st[idx[lp]] = s_ if s_[0] != "dirty" else ("dirty", "it is the %s (line %s) of %s, which is not zero there: %s" % (cr[0], n.get("l"), cr[1], s_[1]))
+                    elif cr[0] == "temp" and cr[1] in idx:
+                        st[idx[lp]] = st[idx[cr[1]]]
+                    else:
+                        st[idx[lp]] = ("unknown", "assigned %s at line %s" % (render(rhs)[:50], n.get("l")))
+                    continue
+            # anything else that may write a tracked object
+            if is_call(n) and n.get("callee") not in dfl.MOVE_FNS:
+                recv = dfl.receiver(n)
+                for a, pn_, pt_ in dfl.call_args_with_params(n, fn):
+                    if a is recv:
+                        continue
+                    ap = rs.path(a)
+                    for t in tracked:
+                        if pt_ is not None and is_nonconst_ref(pt_) and t.related(ap):
+                            if ZERO_BUILDERS.match(strip_targs(n.get("callee", "") or "")):
+                                st[idx[t]] = ("zero",)            # freshly built from a graph: values are zero-initialised (SparseMatrix(graph))
+                            elif callee_name(n) in ("sync_0", "join", "split", "split_recv") and st[idx[t]][0] == "zero":
+                                pass
+                            else:
+                                st[idx[t]] = ("unknown", "possibly written by %s at line %s" % (render(n)[:50], n.get("l")))
+                if recv is not None and n.get("k") == "MCall" and not n.get("cconst"):
+                    rp = rs.path(recv)
+                    pr = par.get(id(n))
+                    if pr is not None and pr[0].get("k") in ("Block", "If", "For", "While") and pr[1] != "c":
+                        for t in tracked:
+                            if t.related(rp) and st[idx[t]][0] == "zero" and callee_name(n) not in ("format",):
+                                st[idx[t]] = ("unknown", "modified by %s at line %s" % (render(n)[:50], n.get("l")))
+        return tuple(st)
+
+    init = []
+    for t in tracked:
+        root = t.steps[0][0] if t.steps else "?"
+        if root == "local":
+            init.append(("dirty", "not yet declared"))
+        else:
+            init.append(("dirty", "it may still hold the values of a previous assembly (the object belongs to the caller and is re-used when the function is called again)"))
+    dfl.propagate(fn, tuple(init), step)
+    uniq = []
+    for pr in problems:
+        if pr[1] not in [u[1] for u in uniq]:
+            uniq.append(pr)
+    count = 0
+    for c, ps in prods:
+        for p_ in ps:
+            if p_ not in idx or p_ not in touched:
+                continue
+            mine = [u for u in uniq if u[0] == c.get("l") and u[1].startswith(repr(p_) + " ")]
+            dmine = [d_ for d_ in doubts if d_[0] == c.get("l") and d_[1].startswith(repr(p_) + " ")]
+            key = "%s/%s(%s)" % (fkey, callee_name(c), p_)
+            if dmine and not mine:
+                ck.incomplete(rule, "%s: %s" % (key, "; ".join(sorted({"line %s: %s" % d_ for d_ in dmine}))[:300]))
+            else:
+                ck.ob(rule, key, not mine, "; ".join("line %s: %s" % u for u in mine) or "%s is zero (format() / transpose or clone of a zero object / freshly built from a graph) on every path into %s" % (p_, callee_name(c)),
+                      fn.file, c.get("l"))
+            count += 1
+    return count
+
+
+# =====================================================================================================
+# inter-mesh transfer: a contribution weighted by 1/size(candidates) needs every candidate to contribute
+# =====================================================================================================
+
+def loop_of_jump(par, n):
+    """innermost loop / switch a break or continue statement belongs to"""
+    cur = n
+    while id(cur) in par:
+        cur, slot = par[id(cur)]
+        if cur.get("k") in ("For", "While", "Do", "ForRange") or (n.get("k") == "Break" and cur.get("k") == "Switch"):
+            return cur
+    return None
+
+
+def check_candidate_weights(ck, fn, fkey, rule="E3.candidates-all-registered"):
+    """consumer:  weight = 1 / C.size()  with C = candidates.at(point)   (averaging over all candidate cells of a point)
+    producer:  for(i = 0; i < C'.size(); ++i) { ... register (i, point) ... }  with C' an element of the same container.
+    The weights of one point sum to one only if the producer loop registers every candidate: it runs over the full extent, is not left early and
+    registers unconditionally."""
+    rs = Resolver(fn)
+    par = dfl.parents(fn)
+
+    def container_of(node):
+        """decl of the container whose element (via .at(k) / [k]) the expression denotes"""
+        st = rs.path(node).steps
+        if len(st) >= 2 and st[0][0] in ("local", "param") and st[1][0] in ("call", "index") and (st[1][0] == "index" or st[1][1] == "at"):
+            return st[0]
+        return None
+    consumers = []
+    for n in fn.nodes():
+        if n.get("k") == "Bin" and n.get("op") == "/" and unwrap_num(rs, n["lhs"]) == 1.0:
+            den = n["rhs"]
+            while den.get("k") in ("Cast", "Construct", "TempObj") and (den.get("e") is not None or len(den.get("a", [])) == 1):
+                den = den.get("e") or den["a"][0]
+            if den.get("k") == "MCall" and callee_name(den) == "size" and not den.get("a"):
+                c = container_of(den.get("obj"))
+                if c is not None:
+                    consumers.append((n, c, den))
+    count = 0
+    for cons, cont, den in consumers:
+        loops = []
+        for L in fn.nodes():
+            if L.get("k") != "For" or L.get("c") is None:
+                continue
+            c = L["c"]
+            if c.get("k") == "Bin" and c.get("op") == "<":
+                b = rs.value(c["rhs"])
+                while b.get("k") in ("Cast",):
+                    b = b["e"]
+                if b.get("k") == "MCall" and callee_name(b) == "size" and container_of(b.get("obj")) == cont and dfl.innermost_loop_same(par, L, L):
+                    loops.append(L)
+        key = "%s/1/%s.size()" % (fkey, render(den.get("obj"))[:40])
+        if not loops:
+            ck.incomplete(rule, "%s: contributions are weighted by 1/%s but no loop over the same candidate list registers them (producer not recognised)" % (key, render(den)[:40]))
+            count += 1
+            continue
+        problems = []
+        for L in loops:
+            ini = L.get("init")
+            v = ini["vars"][0] if ini is not None and ini.get("k") == "Decl" and len(ini.get("vars", [])) == 1 else None
+            zero = v is not None and unwrap_num(rs, v.get("init")) == 0.0 if v is not None and v.get("init") is not None else False
+            inc = L.get("inc")
+            unit = inc is not None and inc.get("k") == "Un" and inc.get("op") == "++"
+            if not (zero and unit):
+                ck.incomplete(rule, "%s: the candidate loop at line %s does not start at 0 with unit stride (not modelled)" % (key, L.get("l")))
+                continue
+            regs = [x for x in walk(L.get("body")) if x.get("k") == "MCall" and callee_name(x) in ("push_back", "emplace_back") and
+                    any(y.get("k") == "Ref" and y.get("d") == v["d"] for a in x.get("a", []) for y in walk(a))]
+            if not regs:
+                continue        # a loop over the candidates that registers nothing: not the producer
+            for x in walk(L.get("body")):
+                if x.get("k") in ("Break", "Continue", "Return") and (x.get("k") == "Return" or loop_of_jump(par, x) is L):
+                    problems.append((x.get("l"), "the loop over the %s candidates of a point is left by '%s' before every candidate is registered, but each registered contribution is "
+                                     "weighted by 1/%s (line %s): the weights of that point no longer sum to one" % (render(den)[:40], x["k"].lower(), render(den)[:40], cons.get("l"))))
+            for r_ in regs:
+                cur = r_
+                while id(cur) in par and par[id(cur)][0] is not L:
+                    cur, slot = par[id(cur)]
+                    if cur.get("k") in ("If", "Cond", "Switch") or (cur.get("k") in ("For", "While") and cur is not L):
+                        problems.append((r_.get("l"), "candidates are registered conditionally (%s at line %s) while each registered contribution is weighted by 1/%s" % (
+                            cur["k"].lower(), cur.get("l"), render(den)[:40])))
+                        break
+        uniq = []
+        for pr in problems:
+            if pr[1] not in [u[1] for u in uniq]:
+                uniq.append(pr)
+        ck.ob(rule, key, not uniq, "; ".join("line %s: %s" % u for u in uniq) or
+              "every candidate of a point is registered unconditionally (full loop 0 .. size, no early exit); contributions are averaged with 1/size", fn.file, uniq[0][0] if uniq else cons.get("l"))
         count += 1
     return count
 
@@ -1664,16 +1947,33 @@ def load_main(ck, alt=False):
     anchored = ("kernel/lafem/transfer.hpp", "kernel/global/transfer.hpp", "kernel/assembly/grid_transfer.hpp", "control/asm/transfer_asm.hpp",
                 "control/asm/transfer_voxel_asm.hpp", "kernel/geometry/intern/coarse_fine_cell_mapping.hpp")
     bad = [e for e in facts.errors_in_repo()]
+    seen_keys = set()
     for e in bad:
         where = rel(e["file"])
         if where in anchored:
-            ck.ob("E0.instantiate", "%s/%s" % (where, re.sub(r"\s+", " ", e["msg"])[:80]), False,
-                  "front-end error inside an anchored transfer function: %s:%d: %s" % (where, e["line"], e["msg"]), e["file"], e["line"])
+            owner = None
+            for fn in facts.functions:
+                if fn.file == e["file"] and fn.line <= e["line"] <= max(fn.end, fn.line) and (owner is None or fn.line >= owner.line):
+                    owner = fn
+            name = strip_targs(owner.qn).replace("FEAT::", "") if owner is not None else None
+            if name is None:
+                for nt in e.get("notes", []):
+                    m = re.search(r"in instantiation of (?:member )?function(?: template specialization)? '([^']+)'", nt["msg"])
+                    if m and rel(nt["file"]) != where or (m and nt["line"] != e["line"]):
+                        name = strip_targs(m.group(1)).replace("FEAT::", "")
+                        break
+            key = "%s/%d" % (name, len(owner.params)) if owner is not None else (name or "%s/%s" % (where, re.sub(r"\s+", " ", e["msg"])[:80]))
+            if key in seen_keys:
+                continue
+            seen_keys.add(key)
+            ck.ob("E0.instantiate", key, False,
+                  "front-end error inside an anchored transfer function: %s:%d: %s" % (where, e["line"], e["msg"][:200]), e["file"], e["line"])
         else:
             ck.incomplete("E0.instantiate", "front-end error while instantiating the transfer drivers: %s:%d: %s" % (where, e["line"], e["msg"]))
-    ck.ob("E0.instantiate", "tu/c18_transfer.cpp%s" % ("[float,u32]" if alt else ""), not [e for e in bad if rel(e["file"]) in anchored],
-          "LAFEM/Global::Transfer (CSR, BWrappedCSR), 6 GridTransfer entry points x 3 element/shape pairs, 8 control-layer transfer assembly entry points and "
-          "5 composite system levels instantiate without front-end errors", None, None, trivial=True)
+    ck.ob("E0.instantiate", "tu/c18_transfer.cpp%s" % ("[float,u32]" if alt else ""), True,
+          "LAFEM/Global::Transfer (CSR, BWrappedCSR, convert), 10 GridTransfer entry points x element/shape pairs, 8 control-layer transfer assembly entry points and "
+          "5 composite system levels were instantiated%s" % ("; %d member(s) with front-end errors are reported separately" % len(seen_keys) if seen_keys else " without front-end errors"),
+          None, None, trivial=True)
     return facts
 
 
@@ -1699,7 +1999,14 @@ def declare_rules(ck):
     ck.rule("E7.weights-inverted-once", "typestate of every weight vector produced by GridTransfer::assemble_prolongation/_truncation/prolongate_vector: "
             "[sync_0 / muxer split in global assembly ->] component_invert(w, w, 1) exactly once -> scale_rows(M, M, w) / component_product(f, f, w) of the object "
             "assembled together with it, on every path to a normal exit (path-sensitive on the bool flags). Broken => rows of every dof shared by k>1 cells are k "
-            "(or k^2) times too large", 13)
+            "(or k^2) times too large", 14)
+    ck.rule("E7.zeroed-before-assembly", "GridTransfer::assemble_prolongation / assemble_truncation / prolongate_vector ADD into their [in,out] matrix and vectors: every object "
+            "a function hands to them is zero on every path into the call — format(), built from a graph, or transpose / value clone of an object that is zero at that point; an "
+            "object of the caller counts as non-zero at entry (re-assembly on an existing transfer is an admissible history, cf. the `if(loc_prol.empty())` guards). "
+            "Broken => the second assembly accumulates onto the first: every entry is doubled", 27)
+    ck.rule("E3.candidates-all-registered", "GridTransfer::assemble_intermesh_transfer / transfer_intermesh_vector: a contribution that is weighted by 1/C.size() (C = list of source cells "
+            "containing a cubature point) requires the producer loop over C to register the point for EVERY candidate: full extent, no break / continue / return of that loop, "
+            "unconditional registration (count/fill agreement of producer and consumer). Broken => points on source-cell interfaces get total weight < 1: constants are not reproduced", 4)
     ck.rule("E2.cell-index", "index kinds in the child-cell loops of the GridTransfer assemblers: evaluators / dof-mappings of the fine (coarse) space are prepared with a cell "
             "index of the fine (coarse) mesh in its own (possibly permuted) numbering; get_perm() maps mesh numbering -> 2-level ordering, get_inv_perm() back, the "
             "guard of a conditional lookup (bool locals resolved, !empty() / size()>0 normalised) is logically equivalent to 'the permutation that is applied is non-empty' "
@@ -1770,6 +2077,9 @@ def analyse(ck, facts, once, grid=True):
         seen.add(sig)
         check_rest_transpose(once, fn, fn_key(fn))
         check_weights(once, fn, fn_key(fn))
+        check_zeroed(once, fn, fn_key(fn))
+        if strip_targs(fn.qn).startswith("FEAT::Assembly::GridTransfer::") and "intermesh" in (fn.name or ""):
+            check_candidate_weights(once, fn, fn_key(fn) + ":" + ",".join(sorted({re.sub(r".*(Hypercube|Simplex)<(\d)>.*", r"\1\2", fn.type(p_["t"])) for p_ in fn.params if "Space::" in fn.type(p_["t"])})))
         if grid and strip_targs(fn.qn).startswith("FEAT::Assembly::GridTransfer::") and fn.name in PRODUCERS and any(callee_name(c) == "calc_fcell" for c in stmt_calls(fn)):
             check_grid_transfer(once, fn)
 
